@@ -178,3 +178,7 @@ pub use span::Span;
 /// Module that provides a WithPositions type
 mod with_positions;
 pub use with_positions::{MatchExtIterator, WithPositions};
+
+/// Module with read-only verification hooks (feature `verif`).
+#[cfg(all(feature = "verif", not(feature = "regex_automata")))]
+pub mod verif;
